@@ -35,6 +35,13 @@
    into an occupied variable leaves the old object alive and unreachable; a statement applied
    to a NULL listener is skipped with a warning.
 
+   waittill_timeout / waittill_any_timeout post an EV_ScriptThread_CancelWaiting event on the
+   thread (EventQueue: sorted by time, GetTime() = the clock); every StoppedWaitFor of a live
+   thread cancels the thread's pending events of that type first, the Listener destructor
+   cancels all; a due event runs CancelWaitingAll on the (still waiting) thread, whose
+   StoppedWaitFor(0, false) puts it on the timer.  The event queue is C08's subject: model and
+   specification share it.
+
    Abstracted.  The enumeration order of con::set over NAMES (only used by UnregisterAll and
    CancelWaitingAll) is the fixed order c, b, a, "" instead of the hash order; the event names
    are the three script names a, b, c and the empty name (const_str 0, used by waitthread);
@@ -126,6 +133,8 @@ Inductive instr :=
 | IWait (d : N)                               (* wait d ms *)
 | IWaitTill (o : N) (n : sname)               (* level.o<o> waittill n *)
 | IWaitTillAny (o : N) (ns : list sname)      (* level.o<o> waittill_any n1 n2 .. *)
+| IWaitTillTimeout (o d : N) (n : sname)      (* level.o<o> waittill_timeout d n  (d ms) *)
+| IWaitTillAnyTimeout (o d : N) (ns : list sname)   (* level.o<o> waittill_any_timeout d n1 n2 .. *)
 | INotify (o : N) (n : sname)                 (* level.o<o> notify n *)
 | IEndOn (o : N) (n : sname)                  (* level.o<o> endon n *)
 | IDelete (o : N)                             (* level.o<o> delete *)
@@ -146,6 +155,7 @@ Fixpoint isize (i : instr) : nat :=
   | IThread p | IWaitThread p =>
       (3 + (fix ps (l : list instr) : nat := match l with [] => O | j :: l' => (isize j + ps l')%nat end) p)%nat
   | IWaitTillAny _ ns => S (length ns)
+  | IWaitTillAnyTimeout _ _ ns => S (length ns)
   | _ => 1%nat
   end.
 Fixpoint psize (p : list instr) : nat :=
@@ -186,25 +196,40 @@ Record sh := mkSh {
   cur : option N;              (* ScriptMaster::m_CurrentThread *)
   clock : N;                   (* the injected clock minus the start time *)
   log : list pr;
-  depth : nat }.               (* ScriptMaster::m_ExecutionDepth: thread executions in progress *)
+  depth : nat;                 (* ScriptMaster::m_ExecutionDepth: thread executions in progress *)
+  evq : list (N * N) }.        (* EventQueue: the pending EV_ScriptThread_CancelWaiting events
+                                  (thread, time), sorted by time, equal times in posting order *)
 
 Definition sh_init : sh :=
-  mkSh (aempty dead_thread) 0 (aempty None) (aempty false) 0 [] (aempty O) 0 O O None 0 [] O.
+  mkSh (aempty dead_thread) 0 (aempty None) (aempty false) 0 [] (aempty O) 0 O O None 0 [] O [].
 
 Definition set_thr (s : sh) (v : arr thread) : sh :=
-  mkSh v (ntid s) (slots s) (oalive s) (nobj s) (etab s) (gcnt s) (ngrp s) (nscr s) (nthr s) (cur s) (clock s) (log s) (depth s).
+  mkSh v (ntid s) (slots s) (oalive s) (nobj s) (etab s) (gcnt s) (ngrp s) (nscr s) (nthr s) (cur s) (clock s) (log s) (depth s) (evq s).
 Definition set_etab (s : sh) (v : tab) : sh :=
-  mkSh (thr s) (ntid s) (slots s) (oalive s) (nobj s) v (gcnt s) (ngrp s) (nscr s) (nthr s) (cur s) (clock s) (log s) (depth s).
+  mkSh (thr s) (ntid s) (slots s) (oalive s) (nobj s) v (gcnt s) (ngrp s) (nscr s) (nthr s) (cur s) (clock s) (log s) (depth s) (evq s).
 Definition set_cur (s : sh) (v : option N) : sh :=
-  mkSh (thr s) (ntid s) (slots s) (oalive s) (nobj s) (etab s) (gcnt s) (ngrp s) (nscr s) (nthr s) v (clock s) (log s) (depth s).
+  mkSh (thr s) (ntid s) (slots s) (oalive s) (nobj s) (etab s) (gcnt s) (ngrp s) (nscr s) (nthr s) v (clock s) (log s) (depth s) (evq s).
 Definition set_log (s : sh) (v : list pr) : sh :=
-  mkSh (thr s) (ntid s) (slots s) (oalive s) (nobj s) (etab s) (gcnt s) (ngrp s) (nscr s) (nthr s) (cur s) (clock s) v (depth s).
+  mkSh (thr s) (ntid s) (slots s) (oalive s) (nobj s) (etab s) (gcnt s) (ngrp s) (nscr s) (nthr s) (cur s) (clock s) v (depth s) (evq s).
 Definition set_clock (s : sh) (v : N) : sh :=
-  mkSh (thr s) (ntid s) (slots s) (oalive s) (nobj s) (etab s) (gcnt s) (ngrp s) (nscr s) (nthr s) (cur s) v (log s) (depth s).
+  mkSh (thr s) (ntid s) (slots s) (oalive s) (nobj s) (etab s) (gcnt s) (ngrp s) (nscr s) (nthr s) (cur s) v (log s) (depth s) (evq s).
 Definition set_depth (s : sh) (v : nat) : sh :=
-  mkSh (thr s) (ntid s) (slots s) (oalive s) (nobj s) (etab s) (gcnt s) (ngrp s) (nscr s) (nthr s) (cur s) (clock s) (log s) v.
+  mkSh (thr s) (ntid s) (slots s) (oalive s) (nobj s) (etab s) (gcnt s) (ngrp s) (nscr s) (nthr s) (cur s) (clock s) (log s) v (evq s).
+Definition set_evq (s : sh) (v : list (N * N)) : sh :=
+  mkSh (thr s) (ntid s) (slots s) (oalive s) (nobj s) (etab s) (gcnt s) (ngrp s) (nscr s) (nthr s) (cur s) (clock s) (log s) (depth s) v.
+
+(* EventQueue::PostEvent: before the first node with a larger time *)
+Fixpoint ev_insert (w t : N) (q : list (N * N)) : list (N * N) :=
+  match q with
+  | [] => [(w, t)]
+  | e :: q' => if t <? snd e then (w, t) :: q else e :: ev_insert w t q'
+  end.
+Definition ev_post (s : sh) (w d : N) : sh := set_evq s (ev_insert w (clock s + d) (evq s)).
+(* CancelEventsOfType(EV_ScriptThread_CancelWaiting) / CancelPendingEvents of thread w *)
+Definition ev_cancel (s : sh) (w : N) : sh := set_evq s (filter (fun e => negb (fst e =? w)) (evq s)).
+
 Definition set_objs (s : sh) (sl : arr (option N)) (oa : arr bool) (no : N) : sh :=
-  mkSh (thr s) (ntid s) sl oa no (etab s) (gcnt s) (ngrp s) (nscr s) (nthr s) (cur s) (clock s) (log s) (depth s).
+  mkSh (thr s) (ntid s) sl oa no (etab s) (gcnt s) (ngrp s) (nscr s) (nthr s) (cur s) (clock s) (log s) (depth s) (evq s).
 
 Definition th (s : sh) (t : N) : thread := get (thr s) t.
 Definition upd (s : sh) (t : N) (v : thread) : sh := set_thr s (set (thr s) t v).
@@ -244,20 +269,20 @@ Definition obj_of (s : sh) (o : N) : option N :=
 Definition new_thread (s : sh) (g : N) (p : list instr) (ret : option N) : sh :=
   mkSh (set (thr s) (ntid s) (mkTh true TRunning VRunning p g RNil ret)) (ntid s + 1)
        (slots s) (oalive s) (nobj s) (etab s) (set (gcnt s) g (S (get (gcnt s) g))) (ngrp s)
-       (nscr s) (S (nthr s)) (cur s) (clock s) (log s) (depth s).
+       (nscr s) (S (nthr s)) (cur s) (clock s) (log s) (depth s) (evq s).
 
 (* a new ScriptClass (its first thread follows): host ExecuteThread, and `waitthread` of a
    thread, which is served by Listener::CreateThreadInternal (a NEW ScriptClass whose self
    is the calling thread), unlike `thread`, served by ScriptClass::CreateThreadInternal *)
 Definition new_class (s : sh) : sh :=
   mkSh (thr s) (ntid s) (slots s) (oalive s) (nobj s) (etab s) (gcnt s) (ngrp s + 1)
-       (S (nscr s)) (nthr s) (cur s) (clock s) (log s) (depth s).
+       (S (nscr s)) (nthr s) (cur s) (clock s) (log s) (depth s) (evq s).
 
 (* ScriptVM::NotifyDelete -> ScriptClass::RemoveThread: the last thread deletes the class *)
 Definition remove_from_class (s : sh) (g : N) : sh :=
   let c := pred (get (gcnt s) g) in
   mkSh (thr s) (ntid s) (slots s) (oalive s) (nobj s) (etab s) (set (gcnt s) g c) (ngrp s)
-       (match c with O => pred (nscr s) | _ => nscr s end) (pred (nthr s)) (cur s) (clock s) (log s) (depth s).
+       (match c with O => pred (nscr s) | _ => nscr s end) (pred (nthr s)) (cur s) (clock s) (log s) (depth s) (evq s).
 
 (* ---------------------------------------------------------------- primitives *)
 Record prims (T : Type) := mkPrims {
@@ -285,6 +310,7 @@ Arguments p_timing {T}. Arguments p_flag {T}.
 Inductive task :=
 | KKill (t : N)                        (* delete thread: the ScriptThread and Listener destructors *)
 | KCancelAll (w : N)                   (* thread->CancelWaitingAll() *)
+| KCancel0 (w : N)                     (* thread->CancelWaiting(0), its first statement *)
 | KNotifyList (l : list lid)           (* the StoppedNotify loops of CancelWaiting/CancelWaitingAll *)
 | KDtor (l : lid)                      (* the Listener destructor: UnregisterAll *)
 | KDestroyList (l : list lid)          (* UnregisterAll: StoppedWaitFor(name, true) on each *)
@@ -299,10 +325,12 @@ Inductive task :=
 | KRunLoop (w : N)                     (* ScriptVM::Process: while (state == Running) *)
 | KInstr (w : N) (i : instr)
 | KRegister (src : lid) (n : name) (w : N)
-| KRegisterList (src : lid) (ns : list sname) (w : N)
+| KRegisterList (src : lid) (ns : list name) (w : N)
 | KEnd (w : N) (v : option N)
 | KExecRunning                         (* ScriptMaster::ExecuteRunning *)
-| KResumeLoop (w : N).                 (* its while loop, w = the element just taken *)
+| KResumeLoop (w : N)                  (* its while loop, w = the element just taken *)
+| KProcessEvents                       (* EventQueue::ProcessPendingEvents *)
+| KFrame.                              (* ScriptContext::Execute after SetTime: events, then due threads *)
 
 Record obs := mkObs {
   prints : list pr;
@@ -340,14 +368,29 @@ Section Interp.
                Execute; then the Listener destructor; the weak references die *)
             let s2' := remove_from_class s2 (grp t0) in
             let s2'' := match vst t0 with VIdling => resolve s2' t RNil | _ => s2' end in
-            do (x3, s3) <- go f (KDtor (LThr t)) x2 s2'';
+            (* the Listener destructor begins with CancelPendingEvents() *)
+            do (x3, s3) <- go f (KDtor (LThr t)) x2 (ev_cancel s2'' t);
             Some (x3, if opt_eqb (cur s3) t then set_cur s3 None else s3)
           else Some (x, s)
       | KCancelAll w =>
+          (* CancelWaiting(0): only when the thread waits for somebody under the empty name;
+             StoppedWaitFor(0, false) on the thread itself when that was its last wait *)
+          do (x2, s2) <- go f (KCancel0 w) x s;
+          (* if (!m_WaitForList) return; all remaining names; StoppedWaitFor(0, false) on itself *)
+          if p_waiting P w x2 then
+            let '(x3, srcs) := p_cancel_rest P w x2 in
+            do (x4, s4) <- go f (KStoppedWaitFor w NE) x3 s2;
+            go f (KNotifyList srcs) x4 s4
+          else Some (x2, s2)
+      | KCancel0 w =>
           let '(x1, srcs0) := p_cancel0 P w x in
-          do (x2, s2) <- go f (KNotifyList srcs0) x1 s;
-          let '(x3, srcs) := p_cancel_rest P w x2 in
-          go f (KNotifyList srcs) x3 s2
+          match srcs0 with
+          | [] => Some (x1, s)
+          | _ =>
+              do (xa, sa) <- (if p_waiting P w x1 then Some (x1, s)
+                              else go f (KStoppedWaitFor w NE) x1 s);
+              go f (KNotifyList srcs0) xa sa
+          end
       | KNotifyList l =>
           match l with
           | [] => Some (x, s)
@@ -397,16 +440,20 @@ Section Interp.
           end
       | KStoppedWaitFor w n =>
           let t0 := th s w in
-          if is_waiting (tst t0) then
-            match n with
-            | NE => go f (KStartTiming w 0) x s
-            | NS _ =>
-                match vst t0 with
-                | VIdling => go f (KExecute w) x s
-                | VSuspended => Some (x, upd s w (w_vst t0 VRunning))     (* vm->Resume() *)
-                | VRunning => Some (x, s)
-                end
-            end
+          if alive t0 then                         (* if (!m_ScriptVM) return *)
+            (* CancelEventsOfType(EV_ScriptThread_CancelWaiting): a pending timeout dies here *)
+            let s := ev_cancel s w in
+            if is_waiting (tst t0) then
+              match n with
+              | NE => go f (KStartTiming w 0) x s
+              | _ =>
+                  match vst t0 with
+                  | VIdling => go f (KExecute w) x s
+                  | VSuspended => Some (x, upd s w (w_vst t0 VRunning))     (* vm->Resume() *)
+                  | VRunning => Some (x, s)
+                  end
+              end
+            else Some (x, s)
           else Some (x, s)
       | KStartTiming w d =>
           do (x1, s1) <- go f (KStop w) x s;
@@ -469,7 +516,7 @@ Section Interp.
           match ns with
           | [] => Some (x, s)
           | n :: ns' =>
-              do (x1, s1) <- go f (KRegister src (NS n) w) x s;
+              do (x1, s1) <- go f (KRegister src n w) x s;
               go f (KRegisterList src ns' w) x1 s1
           end
       | KInstr w i =>
@@ -486,7 +533,22 @@ Section Interp.
               end
           | IWaitTillAny o ns =>
               match obj_of s o with
-              | Some ob => go f (KRegisterList (LO ob) ns w) x s
+              | Some ob => go f (KRegisterList (LO ob) (map NS ns) w) x s
+              | None => Some (x, s)
+              end
+          | IWaitTillTimeout o d n =>
+              (* Register, then CurrentThread()->PostEvent(EV_ScriptThread_CancelWaiting, d) *)
+              match obj_of s o with
+              | Some ob =>
+                  do (x1, s1) <- go f (KRegister (LO ob) (NS n) w) x s;
+                  Some (x1, ev_post s1 w d)
+              | None => Some (x, s)
+              end
+          | IWaitTillAnyTimeout o d ns =>
+              match obj_of s o with
+              | Some ob =>
+                  do (x1, s1) <- go f (KRegisterList (LO ob) (map NS ns) w) x s;
+                  Some (x1, ev_post s1 w d)
               | None => Some (x, s)
               end
           | INotify o n =>
@@ -539,6 +601,19 @@ Section Interp.
           | Some w' => go f (KResumeLoop w') x3 s2
           | None => Some (x3, set_cur s2 None)
           end
+      | KProcessEvents =>
+          (* while the first node is due: remove it, ScriptThread::CancelWaiting -> CancelWaitingAll *)
+          match evq s with
+          | (w, t) :: q =>
+              if t <=? clock s then
+                do (x1, s1) <- go f (KCancelAll w) x (set_evq s q);
+                go f KProcessEvents x1 s1
+              else Some (x, s)
+          | [] => Some (x, s)
+          end
+      | KFrame =>
+          do (x1, s1) <- go f KProcessEvents x s;
+          go f KExecRunning x1 s1
       end
     end.
 
@@ -547,7 +622,7 @@ Section Interp.
     match obj_of s o with Some ob => p_regsize P (LO ob) (NS n) x | None => O end.
 
   Definition observe (x : T) (s : sh) : obs :=
-    mkObs (rev (log s)) (Nat.eqb (nscr s) 0) (nscr s) (nthr s) (p_timing P x)
+    mkObs (rev (log s)) (Nat.eqb (nscr s) 0 && is_nil (evq s)) (nscr s) (nthr s) (p_timing P x)
           (flat_map (fun o => map (size_of x s o) [NA; NB; NC]) [0; 1; 2]) (p_flag P x).
 
   (* live threads, each with what it still has to run *)
@@ -562,7 +637,7 @@ Section Interp.
      nesting costs a bounded number of steps per executed instruction or deleted thread, a
      list of threads is walked with one step per element *)
   Definition fuel_for (s : sh) (extra : nat) : nat :=
-    (40 * (weight s + extra + 2) + 8 * N.to_nat (ntid s))%nat.
+    (40 * (weight s + extra + 2) + 8 * N.to_nat (ntid s) + 8 * length (evq s))%nat.
 
   Definition step (x : T) (s : sh) (o : op) : option (T * sh * obs) :=
     let s := set_log s [] in
@@ -581,7 +656,7 @@ Section Interp.
         Some (x, s', observe x s')
     | OExecute =>
         (* Frame(); SetTime(GetTime()); ProcessPendingEvents() (no events); ExecuteRunning() *)
-        match go (fuel_for s 0) KExecRunning (p_settime P (clock s) x) s with
+        match go (fuel_for s 0) KFrame (p_settime P (clock s) x) s with
         | Some (x', s') => Some (x', s', observe x' s')
         | None => None
         end
